@@ -104,7 +104,7 @@ func (a ConstInt) GetN() int {
 /* json
  * -------------------------------------------------------------------------- */
 func (obj ConstInt) MarshalJSON() ([]byte, error) {
-  return json.Marshal(obj)
+  return json.Marshal(int(obj))
 }
 /* math
  * -------------------------------------------------------------------------- */
